@@ -128,6 +128,22 @@ func genC17(seed uint64, part string) *Scenario {
 	if sc.Mode == "manual" {
 		sc.FinalRefr = 3
 	}
+	if dr := common.NewRng(seed ^ 0x1d); dr.Chance(1, 3) && len(sc.Bars) >= 3 {
+		// ids chosen by the user need not be unique: a predecessor shares its id with
+		// a bar it has nothing to do with
+		for pi, b := range sc.Bars {
+			if b.After >= 0 && b.After != pi {
+				p := b.After
+				sc.Bars[p].DupID = 7
+				for o := range sc.Bars {
+					if o != p && sc.Bars[o].After != p {
+						sc.Bars[o].DupID = 7
+					}
+				}
+				break
+			}
+		}
+	}
 	return sc
 }
 
@@ -143,6 +159,10 @@ func genC06(seed uint64, part string) *Scenario {
 		sc := genC17(seed, "manual")
 		sc.Fam = "C06/manual"
 		return sc
+	}
+	prioInPop := part == "popprio" // pop programs in which finished bars get priority calls (C18's business, not C06's)
+	if prioInPop {
+		part = "pop"
 	}
 	sc := &Scenario{Fam: "C06/" + part, Seed: seed, Q: -1, Width: 100, End: "natural", Policy: r.PickS("none", "light")}
 	sc.RefreshUS = r.Pick(100, 500, 2000)
@@ -194,7 +214,16 @@ func genC06(seed uint64, part string) *Scenario {
 			case x < 5 && part != "pop":
 				val := r.Pick(r.Range(-3, 12), r.Range(-3, 12), r.Range(-100, 100), -1<<31, 1<<31-1)
 				if r.Bool() {
-					ops = append(ops, Op{K: "prio", B: bi, N: int64(val), F: r.Bool()})
+					lz := r.Bool()
+					ops = append(ops, Op{K: "prio", B: bi, N: int64(val), F: lz})
+					if lz && r.Chance(1, 3) {
+						// the same bar, the same value, now with the immediate flavour
+						if r.Bool() {
+							ops = append(ops, Op{K: "setprio", B: bi, N: int64(val)})
+						} else {
+							ops = append(ops, Op{K: "prio", B: bi, N: int64(val), F: false})
+						}
+					}
 				} else {
 					ops = append(ops, Op{K: "setprio", B: bi, N: int64(val)})
 				}
@@ -244,6 +273,14 @@ func genC06(seed uint64, part string) *Scenario {
 			for k := 0; k < r.Range(1, 4); k++ {
 				bi := r.Intn(n)
 				ops = append(ops, g.finishOp(bi, sc.Bars[bi])...)
+				if prioInPop && r.Chance(2, 3) {
+					// a priority call on the finished bar, zero to three frames after it
+					// finished (in the cycle before its pop frame it sits at the top)
+					for x := 0; x < r.Pick(0, 1, 2, 2, 2, 3); x++ {
+						ops = append(ops, step())
+					}
+					ops = append(ops, Op{K: "prio", B: bi, N: int64(r.Range(-3, 12)), F: r.Bool()})
+				}
 				ops = append(ops, step(), step(), step())
 			}
 		}
